@@ -198,9 +198,15 @@ def check(ctx):
 
     # ---- R6: registration layout --------------------------------------------
     mod = m.mod(CF)
-    ctx.need('_CallbackContainer' in mod.consts, '_CallbackContainer declaration not found')
-    decl = mod.consts['_CallbackContainer']
+    ctx.need('_CallbackContainer' in mod.consts or '_CallbackContainer' in mod.classes, '_CallbackContainer declaration not found')
+    decl = mod.consts.get('_CallbackContainer')
     fields = None
+    # ... or declared as a typing.NamedTuple class (directly, or under another name the record name is bound to)
+    kdecl = mod.classes.get(decl.id if isinstance(decl, ast.Name) else '_CallbackContainer' if decl is None else None)
+    if kdecl is not None and any(norm(b).split('.')[-1] == 'NamedTuple' for b in kdecl.node.bases):
+        fields = [st_.target.id for st_ in kdecl.node.body if isinstance(st_, ast.AnnAssign) and isinstance(st_.target, ast.Name)]
+        if any(isinstance(st_, ast.AnnAssign) and st_.value is not None for st_ in kdecl.node.body) or any(isinstance(st_, ast.FunctionDef) for st_ in kdecl.node.body):
+            fields = None                         # defaults / overridden methods: not the plain record any more
     if isinstance(decl, ast.Call) and len(decl.args) == 2:
         v = fold_in(run, decl.args[1])
         if isinstance(v, str):
